@@ -204,6 +204,8 @@ func (it *Interp) rtPanic(fr *frame, kind, msg string) {
 	panic(gp)
 }
 
+var traceOn = os.Getenv("SYMGO_TRACE") != ""
+
 var rtErrType types.Type // set at load: runtime.Error-ish marker type
 
 func (it *Interp) unsupported(format string, a ...interface{}) {
@@ -612,7 +614,7 @@ func (it *Interp) runBlocks(fr *frame) Value {
 	for {
 		blk := fr.block
 		var next *ssa.BasicBlock
-		for _, instr := range blk.Instrs {
+		for idx, instr := range blk.Instrs {
 			it.steps++
 			if it.steps > it.stepLimit {
 				it.ex.UnwindFails++
@@ -622,12 +624,28 @@ func (it *Interp) runBlocks(fr *frame) Value {
 			fr.cur = instr
 			switch in := instr.(type) {
 			case *ssa.Phi:
-				for i, p := range blk.Preds {
-					if p == fr.prev {
-						fr.env[in] = fr.get(in.Edges[i])
-						break
+				// phis of a block are evaluated simultaneously
+				if idx == 0 || !isPhi(blk.Instrs[idx-1]) {
+					pi := 0
+					for i, p := range blk.Preds {
+						if p == fr.prev {
+							pi = i
+							break
+						}
+					}
+					var tmp []Value
+					for j := idx; j < len(blk.Instrs); j++ {
+						ph, ok := blk.Instrs[j].(*ssa.Phi)
+						if !ok {
+							break
+						}
+						tmp = append(tmp, fr.get(ph.Edges[pi]))
+					}
+					for j, v := range tmp {
+						fr.env[blk.Instrs[idx+j].(*ssa.Phi)] = v
 					}
 				}
+				_ = in
 				continue
 			case *ssa.If:
 				c := fr.get(in.Cond).(*Term)
@@ -678,6 +696,13 @@ func (it *Interp) runBlocks(fr *frame) Value {
 				}
 			default:
 				it.exec(fr, instr)
+				if traceOn {
+					if v, ok := instr.(ssa.Value); ok {
+						fmt.Fprintf(os.Stderr, "%*s%s: %s = %s  => %s\n", it.depth, "", fr.fn.Name(), v.Name(), instr.String(), valString(fr.env[v]))
+					} else {
+						fmt.Fprintf(os.Stderr, "%*s%s: %s\n", it.depth, "", fr.fn.Name(), instr.String())
+					}
+				}
 			}
 		}
 		fr.prev = blk
@@ -686,6 +711,11 @@ func (it *Interp) runBlocks(fr *frame) Value {
 			panic("fell off block " + blk.String() + " in " + fr.fn.String())
 		}
 	}
+}
+
+func isPhi(i ssa.Instruction) bool {
+	_, ok := i.(*ssa.Phi)
+	return ok
 }
 
 func (it *Interp) panicMsg(v Value) string {
